@@ -177,6 +177,7 @@ func CheckC01(c *Ctx) {
 	run.Floor("intrinsic_joins", 6)
 	c.checkFormulas()
 	c.defaultsWiring("defaults-wiring", "trend", "momentum", "volatility", "volume")
+	c.constructorParameters("defaults-wiring", "trend", "momentum", "volatility", "volume")
 	run.Floor("default_constant_uses", 60)
 	for k, v := range intrinsicOffsets {
 		run.Assume("intrinsic offset " + k + " = " + v.Skew + ": " + v.Why)
